@@ -502,6 +502,11 @@ def slice_dim(f, slicedef, fuzzydim=True):
     outf = PseudoNetCDFFile()
     p2p.addDimensions(inf, outf)
     p2p.addGlobalProperties(inf, outf)
+    # the dimension is sliced even if no variable uses it
+    newlen = len(range(*slice(dmin, dmax, dstride).indices(
+        len(inf.dimensions[dimkey]))))
+    newdim = outf.createDimension(dimkey, newlen)
+    newdim.setunlimited(unlimited)
 
     for varkey in inf.variables.keys():
         var = inf.variables[varkey]
